@@ -424,31 +424,30 @@ def request_fields(t):
 
 def probe_windows(case, structs):
     """address windows on which model and implementation memories are compared after every call: the
-    surroundings of every target on the addressed chip, on its six neighbours and on one unrelated chip"""
+    surroundings of every written range on the addressed chip, on one neighbour and on one unrelated chip (all
+    six neighbours for a link call); a small window for a read (it leaves the memory alone).  (The oracle
+    judges the whole machine through the simulator's sparse store; this is the model-vs-code comparison.)"""
     chip = tuple(case["chip"])
-    chips = [chip] + sorted(set(neighbour(chip, l, case["dims"]) for l in range(6)) - {chip})
+    nbrs = sorted(set(neighbour(chip, l, case["dims"]) for l in range(6)) - {chip})
     far = ((chip[0] + 3) % case["dims"][0], (chip[1] + 5) % case["dims"][1])
-    if far not in chips:
-        chips.append(far)
-    spans = []
+    ps = []
     mem = Mem(case)
-    for op in case["ops"]:
+    for op in case["ops"][:3]:
         try:
             t = target(case, op, mem, structs)
         except Exception:
             continue
         if t[0] == "read":
-            spans.append((t[2], min(t[3], 16)))        # a read leaves the memory alone: a small window is enough
+            ps.append((tuple(t[1]), max(0, t[2] - 2), 8))
         elif t[0] == "write":
-            spans.append((t[2], len(t[3])))
+            a, n = t[2], min(len(t[3]), 1200)
+            lo = max(0, a - 9)
+            span = a - lo + n + 9
+            chips = [chip] + (nbrs if "link" in op[0] else nbrs[:1]) + ([far] if far != chip and far not in nbrs else [])
+            for i, c in enumerate(chips):
+                if i == 0 or tuple(c) == tuple(t[1]) or n <= 64:
+                    ps.append((c, lo, span))
             mem.store(t[1], t[2], t[3])
-    ps = []
-    for a, n in spans[:3]:
-        lo = max(0, a - 9)
-        n = min(n, 1200)
-        for i, c in enumerate(chips):
-            if i == 0 or n <= 64:
-                ps.append((c, lo, a - lo + n + 9))
     return ps
 
 
@@ -737,18 +736,17 @@ def run(chk, args):
         if quick:
             groups = gen_enumeration(rng, [4, 5, 8, 16, 256], windows, border=[243, 248], rotate=[243, 248, 256])
         else:
-            groups = gen_enumeration(rng, [4, 5, 6, 7, 8, 12, 16, 19, 24, 33, 51, 56, 64, 120, 128, 243, 248, 255,
-                                           256, 300], windows)
+            groups = gen_enumeration(rng, [4, 5, 6, 7, 8, 12, 16, 19, 24, 56, 120, 243, 248, 256, 300], windows)
         singles = gen_fields(rng, structs, [4, 5, 8, 16, 248, 256], windows)
         singles += gen_fills(rng, [4, 16, 256] if quick else [4, 5, 8, 16, 248, 256], windows,
                              list(range(0, 41)) + [252, 256, 260, 1024, 1027])
         singles += gen_links(rng, [4, 5, 7, 8, 16, 18, 248, 256] if quick else
                              [4, 5, 6, 7, 8, 9, 12, 16, 18, 24, 56, 120, 243, 248, 255, 256, 300])
-        singles += [gen_faulted(rng, structs, [4, 5, 8, 16, 24]) for _ in range(260 if quick else 5000)]
+        singles += [gen_faulted(rng, structs, [4, 5, 8, 16, 24]) for _ in range(260 if quick else 3000)]
         singles += [gen_malformed(rng) for _ in range(40 if quick else 200)]
         singles += [gen_nonterm(rng) for _ in range(3)]
         if not quick:
-            for _ in range(30000):                     # sampled: alignment x length 0..2000 x buffer 4..300
+            for _ in range(12000):                     # sampled: alignment x length 0..2000 x buffer 4..300
                 B = rng.randint(4, 300)
                 n = rng.randint(0, 2000)
                 base = rand_base(rng, n + 4) + rng.randrange(4)
